@@ -126,6 +126,8 @@ extern FILE *rt_log;                       /* if non-NULL each granted step is a
 const char *rt_kind_name (int kind);
 void rt_touch (const void *addr, int is_write);
 int rt_should_save (const char *oracle);
+long rt_soft_hits (void);
+void rt_report_soft (FILE *out);
 void *rt_data_sym (const char *name);
 void rt_run_tls_dest_fine (void);
 extern int rt_plain_steps;                 /* 1 (VERIF_PLAIN): plain accesses to heap objects and to other threads' stacks are scheduling points too,
